@@ -132,6 +132,13 @@ func (a *app) ApplySnapshotChunk(req abci.RequestApplySnapshotChunk) abci.Respon
 			}
 		}
 	}
+	for _, sid := range res.RejectSenders {
+		if p := a.w.peerIndex(sid); p >= 0 {
+			a.w.mu.Lock()
+			a.w.lastRejected = p
+			a.w.mu.Unlock()
+		}
+	}
 	a.mu.Lock()
 	if res.Result == abci.ResponseApplySnapshotChunk_ACCEPT && a.accepted != nil {
 		a.accepted[req.Index] = append([]byte{}, req.Chunk...)
